@@ -52,6 +52,19 @@ def run(res, proof):
             if b not in doms:
                 doms[b] = DomainS(b, 5)
                 doms[b + '*'] = ~doms[b]
+        # a live strand (composite domain) that happens to be named like one of the complex's domains, or like the
+        # complement of one: domain names take precedence over strand names when the reader resolves a kernel string
+        clear_singletons(StrandS)
+        decoys = []
+        if rng.random() < 0.4:
+            used = [x for x in names if x != '+']
+            for nm in {rng.choice(used), rng.choice(used)}:
+                b_ = rng.choice(list(doms.values()))
+                try:
+                    decoys.append(StrandS([b_, ~b_, b_], name=(nm if rng.random() < 0.5 else (nm[:-1] if nm.endswith('*') else nm + '*'))))
+                except Exception:
+                    pass
+            res.count('with_decoy_strands')
         for (rn, rs) in ref.rotations(names, s):
             rn, rs = list(rn), list(rs)
             res.evaluations += 1
@@ -88,6 +101,8 @@ def run(res, proof):
                 o2 = 'err ' + type(e).__name__
             lines.append(l2); impl.append(o2)
         res.count('strands_%d' % (s.count('+') + 1))
+        del decoys
+    clear_singletons(StrandS)
     # non-complementary and degenerate patterns: correspondence of the translation only
     for _ in range(300 if quick else 5000):
         pat = PG.render_pattern(PG.rand_pattern(rng), PG.Layout(None))
